@@ -334,12 +334,13 @@ package aml
 // arbitrary, and a pass that starts after some pass has failed is counted (ASSUMED abstraction;
 // what the passes do to the tree is not part of this contract). Pass numbers: 1 parseObjectList,
 // 2 connectNamedObjArgs, 3 mergeScopeDirectives, 4 relocateNamedObjects, 5 parseDeferredBlocks,
-// 6 resolveMethodCalls, 7 connectNonNamedObjArgs.
+// 6 resolveMethodCalls, 7 connectNonNamedObjArgs. The ghost pass counter is ASSUMED not to
+// reach 2^49 (passDone says so): no parse starts that many passes.
 //@ ghost passes uintptr
 //@ ghost passLog map[uintptr]uint8
 //@ ghost passFailed bool
 //@ ghost passAfterFail uintptr
-//@ pred passDone(k uint8, failed bool) = passes == old(passes) + 1 && passLog == upd(old(passLog), old(passes), k) && passFailed == (old(passFailed) || failed) && passAfterFail == old(passAfterFail) + ite(old(passFailed), 1, 0)
+//@ pred passDone(k uint8, failed bool) = passes == old(passes) + 1 && passes < 0x2000000000000 && passLog == upd(old(passLog), old(passes), k) && passFailed == (old(passFailed) || failed) && passAfterFail == old(passAfterFail) + ite(old(passFailed), 1, 0)
 //@ func (p *Parser) init~callers(tableHandle uint8, tableName string, header *table.SDTHeader)
 //@   trusted
 //@   modifies *
@@ -395,10 +396,13 @@ package aml
 //@   ensures stop: passAfterFail == old(passAfterFail)
 //@   ensures fixpoint: err == nil ==> lastMerge == parseResultOk && lastReloc == parseResultOk
 //@   ensures errs: err != nil ==> err == errParsingAML && passFailed
-//@   ensures clean: err == nil ==> !passFailed && p.resolvePasses >= 1
-//@   ensures order: err == nil ==> passes == old(passes) + 2 + 2*uintptr(p.resolvePasses) + 3 && passLog[old(passes)] == 1 && passLog[old(passes)+1] == 2 && forall(j, uintptr, j < uintptr(p.resolvePasses) ==> passLog[old(passes) + 2 + 2*j] == 3 && passLog[old(passes) + 3 + 2*j] == 4) && passLog[passes - 3] == 5 && passLog[passes - 2] == 6 && passLog[passes - 1] == 7
+//@   ensures clean: err == nil ==> !passFailed
+//@   ensures order: err == nil ==> passes - old(passes) >= 7 && (passes - old(passes) - 5) % 2 == 0 && passLog[old(passes)] == 1 && passLog[old(passes)+1] == 2 && forall(j, uintptr, j < (passes - old(passes) - 5) / 2 ==> passLog[old(passes) + 2 + 2*j] == 3 && passLog[old(passes) + 3 + 2*j] == 4) && passLog[passes - 3] == 5 && passLog[passes - 2] == 6 && passLog[passes - 1] == 7
+//@   ensures rounds: err == nil ==> p.resolvePasses == uint32((passes - old(passes) - 5) / 2)
+//@   loop 1 ghost rounds = 0
+//@   loop 1 step rounds = rounds + 1
 //@   loop 1 invariant counter: p.resolvePasses > 1 ==> p.relocatedObjects == relocatedLastPass
-//@   loop 1 invariant p.resolvePasses >= 1 && p.resolvePasses < 0x7fffffff && !passFailed && passAfterFail == old(passAfterFail) && passes == old(passes) + 2 + 2*uintptr(p.resolvePasses - 1) && passLog[old(passes)] == 1 && passLog[old(passes)+1] == 2 && forall(j, uintptr, j < uintptr(p.resolvePasses - 1) ==> passLog[old(passes) + 2 + 2*j] == 3 && passLog[old(passes) + 3 + 2*j] == 4)
+//@   loop 1 invariant p.resolvePasses == uint32(rounds) + 1 && rounds < 0x2000000000000 && !passFailed && passAfterFail == old(passAfterFail) && passes == old(passes) + 2 + 2*rounds && passLog[old(passes)] == 1 && passLog[old(passes)+1] == 2 && forall(j, uintptr, j < rounds ==> passLog[old(passes) + 2 + 2*j] == 3 && passLog[old(passes) + 3 + 2*j] == 4)
 
 // ---- child access (C13) -------------------------------------------------------------------------
 // ArgAt: the index-th child, or nil; never a dead object
